@@ -634,6 +634,85 @@ func main() {
 		})
 	}
 
+	// ---- Extract into a context that already carries baggage ----
+	mkParent := func(n int, prefix string) baggage.Baggage {
+		var ms []baggage.Member
+		for i := 0; i < n; i++ {
+			m, _ := baggage.NewMemberRaw(fmt.Sprintf("%s%d", prefix, i), fmt.Sprintf("p%d", i%5))
+			ms = append(ms, m)
+		}
+		b, err := baggage.New(ms...)
+		if err != nil {
+			panic(err)
+		}
+		return b
+	}
+	addExtractInto := func(pb baggage.Baggage, hdr *string, kind string) {
+		desc := map[string]any{"op": "extract-into", "parent_members": pb.Len()}
+		if hdr != nil {
+			desc["header"] = q(*hdr)
+			if len(*hdr) > 200 {
+				desc["header"] = q((*hdr)[:200]) + fmt.Sprintf("... (%d bytes)", len(*hdr))
+			}
+		}
+		guard(desc, func() {
+			parent := baggage.ContextWithBaggage(context.Background(), pb)
+			carrier := propagation.MapCarrier{}
+			hdrCoq, po, poOK := vgen.None, []cMember(nil), false
+			if hdr != nil {
+				carrier["baggage"] = *hdr
+				hdrCoq = vgen.Some(vgen.HxS(*hdr))
+				if b, err := baggage.Parse(*hdr); err == nil {
+					po, poOK = canon(b), true
+				}
+			}
+			ctx := prop.Extract(parent, carrier)
+			res := canon(baggage.FromContext(ctx))
+			desc["result_members"] = len(res)
+			if got := canon(baggage.FromContext(parent)); fmt.Sprint(got) != fmt.Sprint(canon(pb)) {
+				w.Violation("Extract altered the baggage of the parent context", desc)
+			}
+			w.Tally(fmt.Sprintf("extract-into:parent<=%d:parsed=%v", bucket(pb.Len()), poOK))
+			w.Add(vgen.App("CExtractInto", membersCoq(canon(pb)), hdrCoq, optMembersCoq(po, poOK), membersCoq(res), vgen.Bool(ctx == parent)),
+				desc, kind, poOK)
+		})
+	}
+	{
+		many := func(n int, prefix string) string {
+			var hs []string
+			for i := 0; i < n; i++ {
+				hs = append(hs, fmt.Sprintf("%s%d=h%d", prefix, i, i%3))
+			}
+			return strings.Join(hs, ",")
+		}
+		headers := []*string{nil}
+		for _, h := range []string{"", "k0=new", "zz=new", "k0=new;p=1,zz=2,k178=3", "bad header", "k0=1,", "k0=%zz", many(180, "k"), many(180, "h"), many(181, "h"), many(2, "h")} {
+			h := h
+			headers = append(headers, &h)
+		}
+		for _, n := range []int{0, 1, 179, 180} {
+			pb := mkParent(n, "k")
+			for _, h := range headers {
+				if n < 179 && h != nil && len(*h) > 1000 && !strings.HasPrefix(*h, "k") {
+					continue // the large non-overlapping headers matter for the 180-member limit only
+				}
+				addExtractInto(pb, h, "extract-into-corpus")
+			}
+		}
+		nExt := o.Count(120, 3000)
+		for i := 0; i < nExt; i++ {
+			pb := mkParent(vgen.Pick(r, []int{0, 1, 2, 3, 5, 179, 180}), vgen.Pick(r, []string{"k", "a", "user"}))
+			h := genHeader(r)
+			if r.Chance(1, 5) {
+				h = mutate(r, h)
+			}
+			if r.Chance(1, 3) { // keys overlapping the parent's
+				h = fmt.Sprintf("k%d=over,", r.Intn(4)) + h
+			}
+			addExtractInto(pb, &h, "extract-into")
+		}
+	}
+
 	// ---- percent-encoded constructors ----
 	nCtor := o.Count(250, 5000)
 	for i := 0; i < nCtor; i++ {
